@@ -1,9 +1,11 @@
 package main
 
 import (
+	"fmt"
 	"go/ast"
 	"go/token"
 	"go/types"
+	"os"
 	"strings"
 
 	"golang.org/x/tools/go/cfg"
@@ -22,6 +24,7 @@ func runC17(c *Ctx) {
 	c.Rule("C17-R3", "platform siblings: IsEqual covers path, line, text of both sides; CanCreate is n < maxComments", 9)
 	c.Rule("C17-R4", "summary always posted; delete errors collected", 3)
 	defer c17ListFilters(c)
+	defer c17FirstNoteOnly(c)
 
 	ud := c.MustFunc("C17-R1", "internal/reporter.updateDestination")
 	if ud == nil {
@@ -416,4 +419,57 @@ func c17ListFilters(c *Ctx) {
 		c.Check(newSeen && oldSeen && oldOK, "C17-R3", "GitLabReporter.List:"+pair[1]+" used only when "+pair[0]+" is empty", gl.Decl.Pos(), "new_* preferred",
 			"the existing comment's position is taken from "+pair[1]+" although "+pair[0]+" may be set: for a file renamed (or lines moved) in the merge request the existing comment never equals the pending one, so every run deletes it as stale and creates it again")
 	}
+}
+
+// c17FirstNoteOnly: a GitLab discussion that pint started is identified by its
+// FIRST note (pint's own comment); replies and system notes that follow must
+// neither hide it nor replace it. The loop over a discussion's notes therefore
+// never starts a second iteration: from the loop body the loop head cannot be
+// reached again.
+func c17FirstNoteOnly(c *Ctx) {
+	p := c.P
+	gl := p.methodOn("internal/reporter.GitLabReporter", "List")
+	if gl == nil {
+		return
+	}
+	info := gl.Pkg.TypesInfo
+	fl := p.NewFlow(gl)
+	var loop *ast.RangeStmt
+	ast.Inspect(gl.Decl.Body, func(n ast.Node) bool {
+		if rs, ok := n.(*ast.RangeStmt); ok {
+			if sel, ok := ast.Unparen(rs.X).(*ast.SelectorExpr); ok && sel.Sel.Name == "Notes" {
+				loop = rs
+			}
+		}
+		return true
+	})
+	_ = info
+	if loop == nil || len(loop.Body.List) == 0 {
+		c.Undecided("C17-R3", "GitLabReporter.List:loop over the notes of a discussion", gl.Decl.Pos(), "not found")
+		return
+	}
+	head := fl.loopHead(loop)
+	var first *Site
+	for _, b := range fl.G.Blocks {
+		if b.Stmt == ast.Stmt(loop) && b.Kind == cfg.KindRangeBody {
+			s := Site{b, 0}
+			first = &s
+		}
+	}
+	if head == nil || first == nil {
+		c.Undecided("C17-R3", "GitLabReporter.List:loop over the notes of a discussion", loop.Pos(), "loop head or first body statement not found in the CFG")
+		return
+	}
+	if os.Getenv("PINTSA_DEBUG_CFG") != "" {
+		fmt.Fprintln(os.Stderr, fl.G.Format(p.Fset))
+	}
+	again, _ := fl.Reach(*first, func(Site) bool { return false }, false, PathQ{
+		ToBlock: head,
+		// stay inside this discussion: do not go round an enclosing loop
+		AvoidBlock: func(b *cfg.Block) bool {
+			return b != head && (b.Kind == cfg.KindRangeLoop || b.Kind == cfg.KindForLoop)
+		},
+	})
+	c.Check(!again, "C17-R3", "GitLabReporter.List:a discussion is identified by its first note", loop.Pos(), "the note loop never starts a second iteration",
+		"the loop over a discussion's notes can go on to a second note: a reply from another user or a system note then makes pint's own discussion look foreign (it is skipped) or overwrites the recorded note, so the existing comment is no longer recognised and is posted again on every run")
 }
